@@ -81,7 +81,14 @@ def load_known():
     if not os.path.isfile(path):
         return []
     with open(path, encoding='utf-8') as fh:
-        return json.load(fh)
+        known = json.load(fh)
+    # Regression runs of the checker against a refactoring that was written for an EARLIER commit of /repo analyse that
+    # earlier tree (tools/rftest.py): findings that were still open there are named in PSA_OPEN_AT_BASE and treated as
+    # known for that run only.  Registered commands never set this variable.
+    open_at_base = {x for x in os.environ.get('PSA_OPEN_AT_BASE', '').split(',') if x}
+    if open_at_base:
+        known = [dict(k, status='known') if k.get('id') in open_at_base else k for k in known]
+    return known
 
 
 def match_known(ob: Ob, prop: str, known):
